@@ -121,10 +121,13 @@ class MediaList(cssutils.util._NewListBase):
         # must be at least one value!
         if not atleastone:
             ok = False
-            self._wellformed = ok
+            if not self.length:
+                self._wellformed = ok
             self._log.error('MediaQuery: No content.', error=xml.dom.SyntaxErr)
 
-        self._wellformed = ok
+        if ok or not self.length:
+            # a refused text leaves the list and its state as they are
+            self._wellformed = ok
 
         if ok:
             mediaTypes = []
